@@ -91,6 +91,13 @@ def gen_configs(ctx):
                             "emptyargs": {"args": [], "env": {"A": "b c"}, "timeout": "__absent__", "extra": None, "spaced": True},
                             "someargs": {"args": ["--db", "my file.db"], "env": {}, "timeout": 5, "extra": None, "spaced": True}},
                 "top_extra": None})
+    # text that is not stable under Unicode normalisation or that holds format characters (decomposed accents as macOS
+    # spells file names, zero-width joiners inside emoji sequences and Persian words, soft hyphen, word joiner): the
+    # child must get exactly these code points
+    out.append({"servers": {"unicode-args": {"args": ["re\u0301sume\u0301.txt", "\U0001f468\u200d\U0001f469\u200d\U0001f467", "\u0645\u06cc\u200c\u062e\u0648\u0627\u0647\u0645",
+                                                     "soft\u00adhyphen", "word\u2060joiner", "\u2126 ohm \u212b", "\ufb01 ligature"],
+                                            "env": {"DECOMPOSED": "e\u0301", "ZWJ": "a\u200db", "BOM_INSIDE": "x\ufeffy", "KELVIN": "\u212a"},
+                                            "timeout": 5, "extra": None}}, "top_extra": None})
     # a UTF-8 file (JSON is UTF-8) read by a process whose locale encoding is not: the requested entry itself is plain
     # ASCII, the non-ASCII text sits in a comment member and in an entry that is never asked for
     out.append({"servers": {"plain": {"args": ["--x", "y z"], "env": {"A": "b"}, "timeout": 5, "extra": {"description": "Gr\u00fc\u00dfe \u2713 \u65e5\u672c"}},
